@@ -171,26 +171,85 @@ def _run_inpkg(chk, pkg, test_file, test_name, cases, tag, linkflag, timeout):
     return [x for x in results if "summary" not in x], summary[0], r.wall
 
 
+def _histories(chk, cases, hist):
+    """Arrange the single-poll cases of each configuration into poll sequences for one BrokerContext each
+    (forward, reverse and a seeded shuffle, so that every pair of polls is seen in both orders) and append
+    TLC's own multi-poll histories.  Only the order is chosen here; polls and verdicts are TLC's."""
+    import random
+    by_cfg, order = {}, []
+    for i, c in enumerate(cases):
+        k = (tuple(c["allowed"]), tuple(c["presumed"]))
+        if k not in by_cfg:
+            by_cfg[k] = []
+            order.append(k)
+        by_cfg[k].append({"present": c["present"], "value": c["value"], "reject": c["reject"], "idx": i})
+    lines = []
+    rng = random.Random(chk.seed)
+    for k in order:
+        polls = by_cfg[k]
+        sh = list(polls)
+        rng.shuffle(sh)
+        for name, seq in (("forward", polls), ("reverse", polls[::-1]), ("shuffle", sh)):
+            lines.append({"allowed": list(k[0]), "presumed": list(k[1]), "order": name, "polls": seq})
+    n = len(cases)
+    for hy in hist:
+        polls = []
+        for x in hy["polls"]:
+            polls.append(dict(x, idx=n))
+            n += 1
+        lines.append({"allowed": hy["allowed"], "presumed": hy["presumed"], "order": "tlc-history", "polls": polls})
+    return lines
+
+
 def part_broker(chk, replay_case=None):
     if replay_case is None:
+        for cfg in (("PolicyMC_history_none.cfg",) if chk.tier == "quick" else ("PolicyMC_history_none.cfg", "PolicyMC_history_effective.cfg")):
+            r = _tlc(chk, "RelayPolicy", cfg, keep_prints=False)
+            chk.note("TLC RelayPolicy %s: %d distinct states, error=%s (%.0fs)" % (cfg, r.distinct, r.error, r.wall))
+            if r.error:
+                chk.fail("model check %s failed: %s\n%s" % (cfg, r.error, r.out[-2000:]))
+                return
+        # guard against a vacuous HistoryIndependent: a verdict memo keyed by the raw pattern string must be refuted
+        r = _tlc(chk, "RelayPolicy", "PolicyMC_history_raw.cfg", keep_prints=False)
+        if r.error != "invariant:HistoryIndependent":
+            chk.fail("self-check: PolicyMC_history_raw.cfg should violate HistoryIndependent, TLC says %s" % r.error)
+            return
         cases = _policy_cases(chk, "broker")
         if cases is None:
             return
+        g = _tlc(chk, "RelayPolicy", "PolicyGen_history.cfg", workers=1)
+        if g.error:
+            chk.fail("case emission PolicyGen_history failed: %s" % g.error)
+            return
+        hist = g.prints
         nrej = sum(1 for c in cases if c["reject"])
-        chk.note("TLC emitted %d broker policy cases (%d must be rejected)" % (len(cases), nrej))
-        if len(cases) < 5000 or nrej < 1000 or nrej == len(cases):
-            chk.fail("vacuous broker policy enumeration: %d cases, %d rejects" % (len(cases), nrej))
+        chk.note("TLC emitted %d broker policy cases (%d must be rejected) and %d two-poll histories" % (len(cases), nrej, len(hist)))
+        if len(cases) < 5000 or nrej < 1000 or nrej == len(cases) or len(hist) < 500:
+            chk.fail("vacuous broker policy enumeration: %d cases, %d rejects, %d histories" % (len(cases), nrej, len(hist)))
             return
         chk.sample({"broker_poll": next(c for c in cases if c["reject"] and not c["present"] and len(c["allowed"]) > 1)})
+        lines = _histories(chk, cases, hist)
     else:
-        c = replay_case
-        cases = [{"allowed": list(c["allowed"]), "presumed": list(c["presumed"]), "present": c["present"], "value": list(c["value"]), "reject": c["reject"]}]
-    results, s, wall = _run_inpkg(chk, "broker", BROKER_TEST, "TestVerifC06RelayPattern", cases, "broker", False, 600)
+        lines = [replay_case]
+    results, s, wall = _run_inpkg(chk, "broker", BROKER_TEST, "TestVerifC06RelayPattern", lines, "broker", False, 600)
     chk.cov["evaluations"] += int(s["cases"])
     chk.cov["distinct_nontrivial"] += int(s["nontrivial"])
     chk.cov.setdefault("parts", {})["broker"] = s
-    chk.note("broker: %d polls through the real /proxy handler in %d configurations: %d rejected explicitly and not registered, %d registered, %d client probes (%.0fs)" % (
-        s["cases"], s["configs"], s["rejected"], s["registered"], s["client_probes"], wall))
+    chk.note("broker: %d polls through the real /proxy handler on %d contexts (each configuration in forward, reverse and shuffled order, plus TLC's histories): "
+             "%d rejected explicitly and not registered, %d registered, %d client probes (%.0fs)" % (
+                 s["cases"], s["configs"], s["rejected"], s["registered"], s["client_probes"], wall))
+    # the replay object of a broker result is the whole history up to and including the offending poll
+    byidx = {}
+    for ln in lines:
+        for pos, pl in enumerate(ln["polls"]):
+            byidx[(ln["order"], pl["idx"])] = dict(ln, polls=ln["polls"][:pos + 1])
+    for res in results:
+        c = res.get("case") or {}
+        hy = byidx.get((c.get("order"), res.get("idx")))
+        if hy is not None:
+            res["case"] = dict(c, history=hy)
+    # report the shortest history of each signature
+    results.sort(key=lambda r: len(((r.get("case") or {}).get("history") or {}).get("polls") or []) or 1 << 30)
     nv, nd = _report(chk, results, "broker-inpkg")
     if replay_case is None:
         _diverged(chk, nd, nv, "broker")
@@ -253,7 +312,7 @@ def run(chk, args):
         if rp["driver"] == "matchdrv":
             c = {k: list(v) if isinstance(v, str) else v for k, v in c.items()}
         elif rp["driver"] == "broker-inpkg":
-            c = dict(c, allowed=list(c["allowed"]), presumed=list(c["presumed"]), value=list(c["value"]))
+            c = c["history"]
         return part(chk, replay_case=c)
     only = set(args.only.split(",")) if args.only else None
     for name, fn in PARTS:
